@@ -180,6 +180,7 @@ from .config import (
 )
 from .credentials import match_partial_url, match_urls
 from .errors import GitProtocolError, HangupException, NotGitRepository, SendPackError
+from .file import FileLocked
 from .object_format import DEFAULT_OBJECT_FORMAT
 from .object_store import GraphWalker
 from .objects import ObjectID, valid_hexsha
@@ -3080,12 +3081,21 @@ class LocalGitClient(GitClient):
             for refname, new_sha1 in new_refs.items():
                 old_sha1 = old_refs.get(refname, ZERO_SHA)
                 if new_sha1 != ZERO_SHA:
-                    if not target.refs.set_if_equals(refname, old_sha1, new_sha1):
+                    try:
+                        updated = target.refs.set_if_equals(refname, old_sha1, new_sha1)
+                    except (OSError, FileLocked):
+                        # e.g. locked, or in the way of / below another ref
+                        updated = False
+                    if not updated:
                         msg = f"unable to set {refname!r} to {new_sha1!r}"
                         _progress(msg.encode())
                         ref_status[refname] = msg
                 else:
-                    if not target.refs.remove_if_equals(refname, old_sha1):
+                    try:
+                        removed = target.refs.remove_if_equals(refname, old_sha1)
+                    except (OSError, FileLocked):
+                        removed = False
+                    if not removed:
                         _progress(f"unable to remove {refname!r}".encode())
                         ref_status[refname] = "unable to remove"
 
